@@ -151,13 +151,42 @@ def check_tree(node, prodset, lr1):
     return [node.symbol]
 
 
+def reference_firsts(prods, nts):
+    """Least fixed point of FIRST (None stands for epsilon), computed independently."""
+    first = {x: set() for x in nts}
+    changed = True
+    while changed:
+        changed = False
+        for (l, r) in prods:
+            add = set()
+            all_eps = True
+            for s_ in r:
+                f = first[s_] if s_ in nts else {s_}
+                add |= {t for t in f if t is not None}
+                if None not in f:
+                    all_eps = False
+                    break
+            if all_eps:
+                add.add(None)
+            if not add <= first[l]:
+                first[l] |= add
+                changed = True
+    return first
+
+
 def check_grammar(args):
     prods, start, terms, nts = args
     try:
         lr1 = importlib.import_module("compiler.front_end.lr1")
         pt = importlib.import_module("compiler.util.parser_types")
         try:
-            parser = lr1.Grammar(start, [pt.Production(l, tuple(r)) for (l, r) in prods]).parser()
+            g = lr1.Grammar(start, [pt.Production(l, tuple(r)) for (l, r) in prods])
+            ref = reference_firsts(prods, set(l for (l, r) in prods))
+            for x, want in ref.items():
+                got = set(g.firsts[x])
+                if got != want:
+                    return ("FIRST-is-the-least-fixed-point", {"grammar": prods, "symbol": x, "firsts": sorted(map(str, got)), "reference": sorted(map(str, want))}, 0)
+            parser = g.parser()
         except Exception as e:
             return ("parser()-raises", {"grammar": prods, "exception": "%s: %s" % (type(e).__name__, e)}, 0)
         prodset = set((l, tuple(r)) for (l, r) in prods)
@@ -231,6 +260,26 @@ def random_grammars(rng, count):
         yield (ps, "S", terms, nts)
 
 
+def layered_grammars(rng, count):
+    """Larger random grammars (up to 6 nonterminals, 9 productions, nullable and unit productions likely):
+    FIRST sets and, when conflict-free, the language up to length L are compared."""
+    nts_all, terms = ["S", "A", "B", "C", "D", "E"], ["a", "b", "c"]
+    for _ in range(count):
+        nts = nts_all[:rng.randint(3, 6)]
+        ps = []
+        for i, l in enumerate(nts):
+            for _k in range(rng.choice([1, 1, 2])):
+                n = rng.choice([0, 1, 1, 2, 2, 3])
+                # prefer later nonterminals (layered => mostly non-left-recursive, often conflict-free)
+                r = tuple(rng.choice(nts[i + 1:] + terms + terms) if nts[i + 1:] else rng.choice(terms) for _ in range(n))
+                ps.append((l, r))
+        ps = list(dict.fromkeys(ps))
+        used = {s_ for (l, r) in ps for s_ in r if s_ in nts_all}
+        if any(u not in {l for (l, r) in ps} for u in used):
+            continue
+        yield (ps, "S", terms, [l for l in nts if any(l == q for (q, _) in ps)])
+
+
 def emboss_grammar_check(run, rng, tier):
     """The real Emboss parser on token-level mutations of corpus files vs an Earley recogniser of module_ir.PRODUCTIONS."""
     import glob
@@ -287,6 +336,7 @@ def main(args):
         # the exhaustive 1-2 production part always, a seeded third of the 3-production grammars
         gs = [g for g in gs if len(g[0]) <= 2] + [g for g in gs if len(g[0]) == 3 and rng.random() < 0.25]
     gs += list(random_grammars(rng, 1500 if args.tier == "quick" else 20000))
+    gs += list(layered_grammars(rng, 3000 if args.tier == "quick" else 40000))
     t0 = time.time()
     with multiprocessing.get_context("fork").Pool(16) as p:
         res = p.map(check_grammar, gs, chunksize=64)
@@ -299,7 +349,7 @@ def main(args):
             conflict_free += 1
         if clause:
             fails.setdefault(clause, []).append(bad)
-    clauses = ["parser()-raises", "accepts-exactly-the-language", "tree-is-a-derivation", "tree-leaves-equal-input", "error-at-first-non-viable-token",
+    clauses = ["parser()-raises", "FIRST-is-the-least-fixed-point", "accepts-exactly-the-language", "tree-is-a-derivation", "tree-leaves-equal-input", "error-at-first-non-viable-token",
                "ambiguous-grammar-reports-conflict", "checker-crash"]
     for cl in clauses:
         if cl == "checker-crash":
